@@ -244,13 +244,23 @@ def rebindBranches (cols : List (Uid × ColMeta)) : List (Expr × Expr) → List
   | (c, v) :: bs => (rebindCols cols c, rebindCols cols v) :: rebindBranches cols bs
 end
 
+/-- re-bind a `Col` object (select / group_by arguments) -/
+def rebindColArg (cols : List (Uid × ColMeta)) (c : Uid × ColMeta) : Uid × ColMeta :=
+  match cols.find? (·.1 == c.1) with
+  | some (_, m) => (c.1, { c.2 with dtype := m.dtype, ftype := m.ftype })
+  | none => c
+
 def Ast.mapRoots (f : Expr → Expr) : Ast → Ast
-  | .select i c cols => .select i c cols
   | .mutate i c n v u => .mutate i c n (v.map f) u
   | .filter i c p => .filter i c (p.map f)
   | .summarize i c n v u => .summarize i c n (v.map f) u
   | .arrange i c o => .arrange i c (o.map (fun x => (f x.1, x.2)))
   | .join i c r on h => .join i c r (f on) h
+  | a => a
+
+def Ast.mapColArgs (f : Uid × ColMeta → Uid × ColMeta) : Ast → Ast
+  | .select i c cols => .select i c (cols.map f)
+  | .groupBy i c cols a => .groupBy i c (cols.map f) a
   | a => a
 
 /-- rebuild `chain` (verbs from the new node down to just above the alias) on top of `base` -/
@@ -267,6 +277,9 @@ def checkSubquery (newAst : Ast) (child : Tbl) (isRight : Bool) (fresh : NodeId)
   match child.cache.requiresSubquery newAst with
   | none => .ok (newAst, child, false)
   | some _ =>
+    -- `if is_right: assert isinstance(new_tbl._ast, verbs.Join)` is reached as soon as an alias
+    -- is found: for a union's right input it fails (finding D40)
+    let rightOfUnion := isRight && (match newAst with | .union .. => true | _ => false)
     let rec search (chainBelow : List Ast) : List Ast → Except Err (Ast × Tbl × Bool)
       | [] => .error .subquery
       | nd :: rest =>
@@ -276,12 +289,13 @@ def checkSubquery (newAst : Ast) (child : Tbl) (isRight : Bool) (fresh : NodeId)
             -- copies that `TableImpl` (`copy.copy(c) for c in chain`), which raises TypeError for
             -- SQL tables (finding D38)
             if chainBelow.any (fun n => match n with | .source .. => true | _ => false) then .error .type else
+            if rightOfUnion then .error (.internal "AssertionError") else
             let marker := Ast.subqueryMarker fresh nd
             -- the part of the child AST between the new node and the alias, rebuilt on the marker
             let belowRebuilt := chainBelow.reverse.foldl (fun acc v => v.setChild acc) marker
             let testCache := Cache.fromAst belowRebuilt
             let new0 := if isRight then newAst.setRight belowRebuilt else newAst.setChild belowRebuilt
-            let new1 := new0.mapRoots (rebindCols testCache.cols)
+            let new1 := (new0.mapRoots (rebindCols testCache.cols)).mapColArgs (rebindColArg testCache.cols)
             if (testCache.requiresSubquery new1).isSome then .error .subquery
             else .ok (new1, ⟨belowRebuilt, testCache⟩, true)
         | .subqueryMarker .. | .join .. => .error .subquery
